@@ -739,16 +739,20 @@ func (g *gctx) chooseFailure(r *lib.Rng, p *Prog) {
 // mapping (fan-in / re-join: every incoming edge writes its own fields).
 // Returns the mapping (nil = whole output), the resulting type and guaranteed keys.
 func (g *gctx) outMapFor(rawT bool, allKeys []int, nextT bool, forceTo bool) (*FMap, bool, []int) {
-	rawKeys := g.strKeys(allKeys) // fields read one by one: the string-valued ones
-	pickKey := func() *int {
-		var k int
-		if g.inject == "fmkey" && !g.injected {
-			k = g.key() // a key nobody produces
-			g.injected = true
-		} else {
-			k = rawKeys[g.r.Intn(len(rawKeys))]
+	strs := g.strKeys(allKeys) // the fields that hold strings
+	var umaps []int            // the fields that hold a map[string]any
+	for _, k := range allKeys {
+		if sh := g.kmap[k]; sh != nil && !sh.typed {
+			umaps = append(umaps, k)
 		}
-		return &k
+	}
+	// the first field read may be one nobody produces (deliberately outside the domain: F-C04c)
+	pick := func(from []int) int {
+		if g.inject == "fmkey" && !g.injected {
+			g.injected = true
+			return g.key()
+		}
+		return from[g.r.Intn(len(from))]
 	}
 	switch {
 	case !rawT && nextT:
@@ -762,25 +766,45 @@ func (g *gctx) outMapFor(rawT bool, allKeys []int, nextT bool, forceTo bool) (*F
 			keys = append(keys, e.To)
 		}
 		return f, true, keys
-	case rawT && !nextT && len(rawKeys) > 0:
-		return &FMap{Take: pickKey()}, false, nil
-	case rawT && nextT && len(rawKeys) > 0 && (forceTo || g.r.Chance(1, 2)):
-		f := &FMap{}
-		var keys []int
-		n := g.r.Range(1, len(rawKeys))
-		perm := append([]int(nil), rawKeys...)
-		for i := 0; i < n; i++ {
-			j := i + g.r.Intn(len(perm)-i)
-			perm[i], perm[j] = perm[j], perm[i]
-			from := perm[i]
-			if i == 0 {
-				from = *pickKey()
+	case rawT && !nextT && len(strs) > 0:
+		k := pick(strs)
+		return &FMap{Take: &k}, false, nil
+	case rawT && nextT:
+		// map to map. Towards a fan-in / re-join (forceTo) the edge must write fields of its own.
+		roll := g.r.Intn(20)
+		switch {
+		case len(allKeys) > 0 && (forceTo && (roll < 15 || !g.nestOK()) || !forceTo && roll < 8):
+			// MapFields: some of the fields, each to a field of its own; a field that holds a map
+			// arrives as a nested map
+			f := &FMap{}
+			var keys []int
+			n := g.r.Range(1, len(allKeys))
+			perm := append([]int(nil), allKeys...)
+			for i := 0; i < n; i++ {
+				j := i + g.r.Intn(len(perm)-i)
+				perm[i], perm[j] = perm[j], perm[i]
+				from := perm[i]
+				if i == 0 {
+					from = pick(allKeys)
+				}
+				to := g.key()
+				if sh := g.kmap[from]; sh != nil {
+					g.setShape(to, sh.typed, sh.keys)
+				}
+				f.To = append(f.To, FEntry{From: &from, To: to})
+				keys = append(keys, to)
 			}
+			return f, true, keys
+		case g.nestOK() && (forceTo || roll < 12):
+			// ToField of the whole map: it sits under the field as a nested map
 			to := g.key()
-			f.To = append(f.To, FEntry{From: &from, To: to})
-			keys = append(keys, to)
+			g.setShape(to, false, strs)
+			return &FMap{To: []FEntry{{To: to}}}, true, []int{to}
+		case len(umaps) > 0 && g.inject == "" && roll < 16:
+			// FromField of a field that holds a map: the successor's input is that map
+			k := umaps[g.r.Intn(len(umaps))]
+			return &FMap{Take: &k, TakeMap: true}, true, g.kmap[k].keys
 		}
-		return f, true, keys
 	}
 	return nil, rawT, allKeys
 }
@@ -804,7 +828,7 @@ func (g *gctx) wfLeaf(curT bool, curKeys []int, nextT *bool, forceTo bool, depth
 	} else {
 		st = g.genNode(curT, curKeys, rawT)
 	}
-	if rawT && len(g.strKeys(st.keys)) == 0 && (forceTo || !want) {
+	if rawT && (!want && len(g.strKeys(st.keys)) == 0 || forceTo && len(st.keys) == 0 && !g.nestOK()) {
 		// a map whose keys are not known statically cannot be read field by field: use a string producer
 		rawT = false
 		st = g.genNode(curT, curKeys, rawT)
